@@ -13,4 +13,4 @@ run() {
   rm -f /tmp/seedmatrix.$s.log
 }
 export -f run
-printf '%s\n' "${ids[@]}" | xargs -P 2 -I{} bash -c 'run {}'
+printf '%s\n' "${ids[@]}" | xargs -P 3 -I{} bash -c 'run {}'
